@@ -292,6 +292,12 @@ def _select(case, intchrom=False):
                 raise AssertionError(f"L1 != L0 on {table} {colkeys} {key}: {a['model']} vs {a['spec']}")
             if not same_result(impl, a["model"]):
                 bad.append({"key": key, "impl": impl, "model": a["model"]})
+            if stats["in_domain"] % 5 == 0:
+                # `sel[(key,)]` is `sel[key]`; a longer tuple is an IndexError
+                t1 = guarded_frame(lambda: sel[(pykey(key),)])
+                t2 = guarded_frame(lambda: sel[(pykey(key), pykey(key))])
+                if not same_result(t1, a["tuple1"]) or not same_result(t2, a["tuple2"]):
+                    bad.append({"key": key, "tuple_forms": True, "impl": [t1, t2], "model": [a["tuple1"], a["tuple2"]]})
     finally:
         if handle is not None:
             handle.close()
@@ -544,7 +550,7 @@ def cases(tier, rng):
     for sizes in layouts(5 if thorough else 4):
         n = sum(sizes)
         stores.append(make_spec(rng, sizes, rng.randint(1, min(5, n * (n + 1) // 2))))
-    for _ in range(24 if thorough else 6):
+    for _ in range(16 if thorough else 6):
         k = rng.randint(1, 3)
         maxn = 8 if thorough else 6
         sizes = [1] * k
